@@ -58,7 +58,7 @@ pub fn suite(name: &str, thorough: bool) -> Suite {
                 s.depth = if thorough { 5 } else { 4 };
             }
             if name == "C17" {
-                s.kinds = ALL_KINDS.to_vec();
+                s.kinds = ALL_KINDS.iter().copied().filter(|k| *k != KindId::RangeX).collect();
                 s.depth = if thorough { 5 } else { 4 };
                 s.terms = vec![Term::Drop, Term::Seq(ALL), Term::Seq(1), Term::Seq(0)];
             }
